@@ -226,6 +226,16 @@ def run(rep, tier):
     # request line: the components returned are sub-spans of the target (rule lives in C20)
     from props import c20
     rep.floor("target component searches", c20.span_rule(rep, us["src/proto/http.c"]), 3)
+    # fixed headers read through bit-field records: the declaration for big-endian hosts names the same wire bits as the
+    # one for little-endian hosts (the validators and locators read these fields on either kind of host)
+    from rules import r_bitlayout
+    nbf = 0
+    for h in ("proto/mpeg2ts.h", "proto/rtp.h", "proto/sap.h"):
+        ub = driver.load_units(r_bitlayout.units_for(h)[1:])
+        rep.use_units(ub)
+        ub[h] = us[h]
+        nbf += r_bitlayout.check(rep, ub, h)
+    rep.floor("header bit-fields compared in both byte orders", nbf, 100)
     from rules import r_endian
     nwf = 0
     for lab, u in us.items():
